@@ -24,8 +24,8 @@ ASSUMPTIONS = [
     "in-memory ICE stand-in, loss-free during the handshake (OpenSSL's retransmission clock is real time)",
 ]
 DECIDING = ["handshakes", "identity_checks", "payloads_checked", "tampered_sent"]
-EXPLANATION = ("exhaustive for the class-reduced identity matrix (ordered subsets of the three supported hashes x correctness classes "
-               "per entry, one spelling style each, with/without an unsupported entry) and for the SRTP profile matrix (ordered subsets x roles)")
+EXPLANATION = ("exhaustive for the class-reduced identity matrix (ordered subsets of the three supported hashes, and lists naming one hash "
+               "twice, x correctness classes per entry, one spelling style each, with/without an unsupported entry) and for the SRTP profile matrix (ordered subsets x roles)")
 
 SUPPORTED = ["sha-256", "sha-384", "sha-512"]
 UNSUPPORTED = ["sha-1", "md5", "foo"]
@@ -70,6 +70,13 @@ def identity_cells():
             for classes in itertools.product(["correct", "corrupt", "truncated"], repeat=k):
                 cells.append((algs, classes))
     cells.append(((), ()))  # only unsupported algorithms
+    # the same hash listed more than once (entries may differ in spelling): every entry has to match
+    for a in SUPPORTED:
+        for classes in itertools.product(["correct", "corrupt", "truncated"], repeat=2):
+            cells.append(((a, a), classes))
+    for a, b in (("sha-256", "sha-384"), ("sha-512", "sha-256"), ("sha-384", "sha-512")):
+        for classes in itertools.product(["correct", "corrupt"], repeat=3):
+            cells.append(((a, b, a), classes))
     return cells
 
 
@@ -121,6 +128,24 @@ async def identity_case(cell0, cell1, rng, out, unsupported):
                 s = pair.stubs[1 - i]
                 if s.data or s.rtp or s.rtcp:
                     out.fail("failed-side-delivers", f"side {1 - i} is {states[1 - i]} but delivered application traffic", desc)
+        # a side that refused the peer has no keys to use: nothing it is asked to send leaves it, SRTP or data
+        for i in range(2):
+            if states[i] != "connected":
+                before = pair.ice[i].sent
+                raised = []
+                for name, fn, arg in (("_send_rtp", pair.t[i]._send_rtp, rtp_bytes(1000 + i, 9, b"y")),
+                                      ("_send_rtp(rtcp)", pair.t[i]._send_rtp, sr_bytes(1000 + i, 1)),
+                                      ("_send_data", pair.t[i]._send_data, b"from-failed-side")):
+                    try:
+                        await fn(arg)
+                    except Exception as exc:
+                        raised.append(type(exc).__name__)
+                await pair.settle(5)
+                out.counters["failed_side_send_attempts"] += 3
+                s1 = pair.stubs[1 - i]
+                if pair.ice[i].sent != before:
+                    out.fail("failed-side-sends", f"side {i} is {states[i]} (peer not verified) but emitted {pair.ice[i].sent - before} datagrams when asked "
+                             f"to send RTP/RTCP/data (exceptions: {raised}); the peer received rtp={len(s1.rtp)} rtcp={len(s1.rtcp)} data={len(s1.data)}", desc)
         out.distinct(("id", cell0, cell1, bool(unsupported)))
         if out.want_sample():
             out.sample(desc | {"states": states, "expected": want})
